@@ -144,6 +144,7 @@ func cmdRun(args []string) int {
 			fmt.Sscan(s, &v)
 			pf = append(pf, v)
 		}
+		opts.TraceSched = true
 		sess, err := smt.NewSession(opts.TimeoutMs)
 		if err != nil {
 			fmt.Fprintln(os.Stderr, err)
